@@ -150,14 +150,13 @@ theorem rejects_unknown_field {reg : Reg} {n : String} {fs : List InField} (hn :
 /-- **rejects: unknown enum name** — both routes -/
 theorem rejects_unknown_enum {reg : Reg} {n : String} {vs : List (String × PV)} (hn : reg.get? n = some (.enum vs))
     (vars : Option (List (String × PV))) (fuel : Nat) (s : String) (hs : ∀ p, p ∈ vs → p.1 ≠ s) (pv : PV) :
-    (∀ a b, coerceValue reg fuel (.named n) (.str s a b) ≠ .ok pv) ∧
+    coerceValue reg fuel (.named n) (.str s) ≠ .ok pv ∧
     valueFromAst reg vars fuel (.named n) (.enum s) ≠ .ok pv := by
   cases fuel with
   | zero => simp [coerceValue, valueFromAst]
   | succ fuel =>
     constructor
-    · intro a b
-      simp [coerceValue, Ty.isNonNull, stripNN, coerceCore, JV.isNull, hn, getValue_unknown hs]
+    · simp [coerceValue, Ty.isNonNull, stripNN, coerceCore, JV.isNull, hn, getValue_unknown hs]
     · simp [valueFromAst, Ty.isNonNull, stripNN, vfaCore, Lit.isNull, hn, getValue_unknown hs]
 
 /-- **rejects: structurally wrong JSON** — an array or object where a specified scalar is expected (fix A4 for
@@ -165,7 +164,7 @@ theorem rejects_unknown_enum {reg : Reg} {n : String} {vs : List (String × PV)}
 theorem rejects_structurally_wrong_json {reg : Reg} {n : String} (fuel : Nat) (pv : PV) :
     (∀ k, reg.get? n = some k → IsSpecifiedScalar k →
         (∀ l, coerceValue reg fuel (.named n) (.list l) ≠ .ok pv) ∧ (∀ kvs, coerceValue reg fuel (.named n) (.obj kvs) ≠ .ok pv)) ∧
-    (∀ vs, reg.get? n = some (.enum vs) → ∀ v, v.isNull = false → (∀ s a b, v ≠ .str s a b) →
+    (∀ vs, reg.get? n = some (.enum vs) → ∀ v, v.isNull = false → (∀ s, v ≠ .str s) →
         coerceValue reg fuel (.named n) v ≠ .ok pv) ∧
     (∀ fs, reg.get? n = some (.input fs) → ∀ v, v.isNull = false → (∀ kvs, v ≠ .obj kvs) →
         coerceValue reg fuel (.named n) v ≠ .ok pv) := by
@@ -183,31 +182,34 @@ theorem rejects_structurally_wrong_json {reg : Reg} {n : String} (fuel : Nat) (p
 
 /-- **rejects: non-finite Float** (fix X2) — the infinities and NaN are refused at a `Float` position on both routes:
     a JSON float (`json.loads` admits `Infinity` / `NaN`), a JSON string that `float()` maps to a non-finite value
-    (`"inf"`, `"nan"`, `"1e999"`), and an overflowing literal (`1e999`). Stated about the finiteness guard re-extracted
-    from `coerce_float` on every run. -/
+    (`"inf"`, `"nan"`, `"1e999"`), and an overflowing literal (`1e999`) — "non-finite" as the lexeme model `PyNum.pyFloat`
+    computes it. Stated about the finiteness guard re-extracted from `coerce_float` on every run. -/
 theorem rejects_non_finite_float {reg : Reg} {n : String} (hn : reg.get? n = some .float)
-    (vars : Option (List (String × PV))) (fuel : Nat) (c : FCls) (hc : c ≠ .finite) (pv : PV) :
-    (∀ t i, coerceValue reg fuel (.named n) (.float t i c) ≠ .ok pv) ∧
-    (∀ s i10 r i, coerceValue reg fuel (.named n) (.str s i10 (some (r, i, c))) ≠ .ok pv) ∧
-    (∀ t, valueFromAst reg vars fuel (.named n) (.float t c) ≠ .ok pv) := by
-  have hg : floatGuardRejects c = true := (floatGuard_spec c).2 hc
+    (vars : Option (List (String × PV))) (fuel : Nat) (t : String) (d : PyNum.Dbl) (ht : PyNum.pyFloat t = some d)
+    (hc : clsOf d ≠ .finite) (pv : PV) :
+    coerceValue reg fuel (.named n) (.float t) ≠ .ok pv ∧
+    coerceValue reg fuel (.named n) (.str t) ≠ .ok pv ∧
+    valueFromAst reg vars fuel (.named n) (.float t) ≠ .ok pv := by
+  have hg : floatGuardRejects (clsOf d) = true := (floatGuard_spec _).2 hc
   cases fuel with
   | zero => simp [coerceValue, valueFromAst]
   | succ fuel =>
     refine ⟨?_, ?_, ?_⟩
-    · intro t i
-      simp [coerceValue, Ty.isNonNull, stripNN, coerceCore, JV.isNull, hn, coerceFloat, floatChecked, hg]
-    · intro s i10 r i
-      simp only [coerceValue, Ty.isNonNull, Bool.false_and, stripNN, coerceCore, JV.isNull, hn, coerceFloat, floatChecked, hg]
+    · simp [coerceValue, Ty.isNonNull, stripNN, coerceCore, JV.isNull, hn, coerceFloat, ht, floatChecked, hg]
+    · simp only [coerceValue, Ty.isNonNull, Bool.false_and, stripNN, coerceCore, JV.isNull, hn, coerceFloat, ht, floatChecked, hg]
       simp
-    · intro t
-      simp only [valueFromAst, Ty.isNonNull, Bool.false_and, stripNN, vfaCore, Lit.isNull, hn, isScalarLit, parseLiteral, floatChecked, hg]
+    · simp only [valueFromAst, Ty.isNonNull, Bool.false_and, stripNN, vfaCore, Lit.isNull, hn, isScalarLit, parseLiteral, ht, floatChecked, hg]
       simp
 
+/-- the lexemes in question -/
+example : PyNum.pyFloat "inf" = some (.inf false) ∧ PyNum.pyFloat "-Infinity" = some (.inf true) ∧ PyNum.pyFloat "nan" = some .nan ∧
+    PyNum.pyFloat "1e999" = some (.inf false) ∧ PyNum.pyFloat "-1e999" = some (.inf true) := by decide
+
 /-- finite floats are still accepted unchanged (the guard refuses nothing else) -/
-theorem accepts_finite_float {reg : Reg} {n : String} (hn : reg.get? n = some .float) (fuel : Nat) (t : String) (i : Option Int) :
-    coerceValue reg (fuel + 1) (.named n) (.float t i .finite) = .ok (.float (.text t)) := by
-  simp [coerceValue, Ty.isNonNull, stripNN, coerceCore, JV.isNull, hn, coerceFloat, floatChecked_finite]
+theorem accepts_finite_float {reg : Reg} {n : String} (hn : reg.get? n = some .float) (fuel : Nat) (t : String)
+    (neg : Bool) (m : Nat) (e : Int) (ht : PyNum.pyFloat t = some (.finite neg m e)) :
+    coerceValue reg (fuel + 1) (.named n) (.float t) = .ok (.float (.text t)) := by
+  simp [coerceValue, Ty.isNonNull, stripNN, coerceCore, JV.isNull, hn, coerceFloat, ht, clsOf, floatChecked_finite]
 
 /-- **rejects: structurally wrong literal** — a list / object / enum literal where a scalar is expected, anything but
     an enum value where an enum is expected, anything but an object where an input object is expected. -/
